@@ -264,7 +264,21 @@ impl Distrib for Uniform<f32> {
         // Leaves a lot of precision unused near zero, but it's okay.
         let (exp, mantissa) = (127 << 23, rng.next_bits() >> 41);
         let unit = f32::from_bits(exp | mantissa as u32) - 1.0;
-        unit * (end - start) + start
+        let res = unit * (end - start) + start;
+        if res < end {
+            res
+        } else {
+            // Rounding may yield `end` itself, which is not in the half-open
+            // range; return its predecessor instead
+            let pred = if end > 0.0 {
+                f32::from_bits(end.to_bits() - 1)
+            } else if end < 0.0 {
+                f32::from_bits(end.to_bits() + 1)
+            } else {
+                -f32::from_bits(1)
+            };
+            pred.max(start)
+        }
     }
 }
 
